@@ -143,6 +143,11 @@ func LoadDHCPv6Records(filename string) (map[string]net.IP, error) {
 
 // Handler6 handles DHCPv6 packets for the file plugin
 func Handler6(req, resp dhcpv6.DHCPv6) (dhcpv6.DHCPv6, bool) {
+	return handle6(&StaticRecords, req, resp)
+}
+
+// handle6 serves a DHCPv6 request from the given table of static leases
+func handle6(records *map[string]net.IP, req, resp dhcpv6.DHCPv6) (dhcpv6.DHCPv6, bool) {
 	m, err := req.GetInnerMessage()
 	if err != nil {
 		log.Errorf("BUG: could not decapsulate: %v", err)
@@ -164,7 +169,7 @@ func Handler6(req, resp dhcpv6.DHCPv6) (dhcpv6.DHCPv6, bool) {
 	recLock.RLock()
 	defer recLock.RUnlock()
 
-	ipaddr, ok := StaticRecords[mac.String()]
+	ipaddr, ok := (*records)[mac.String()]
 	if !ok {
 		log.Warningf("MAC address %s is unknown", mac.String())
 		return resp, false
@@ -186,10 +191,15 @@ func Handler6(req, resp dhcpv6.DHCPv6) (dhcpv6.DHCPv6, bool) {
 
 // Handler4 handles DHCPv4 packets for the file plugin
 func Handler4(req, resp *dhcpv4.DHCPv4) (*dhcpv4.DHCPv4, bool) {
+	return handle4(&StaticRecords, req, resp)
+}
+
+// handle4 serves a DHCPv4 request from the given table of static leases
+func handle4(records *map[string]net.IP, req, resp *dhcpv4.DHCPv4) (*dhcpv4.DHCPv4, bool) {
 	recLock.RLock()
 	defer recLock.RUnlock()
 
-	ipaddr, ok := StaticRecords[req.ClientHWAddr.String()]
+	ipaddr, ok := (*records)[req.ClientHWAddr.String()]
 	if !ok {
 		log.Warningf("MAC address %s is unknown", req.ClientHWAddr.String())
 		return resp, false
@@ -255,7 +265,12 @@ func setupFile(v6 bool, args ...string) (handler.Handler6, handler.Handler4, err
 	}
 
 	log.Infof("loaded %d leases from %s", len(StaticRecords), filename)
-	return Handler6, Handler4, nil
+	// Each protocol serves from the table loaded from its own file: with a single
+	// shared table, a dual-stack configuration answered DHCPv6 clients with the
+	// IPv4 addresses of the DHCPv4 lease file (whichever was loaded last)
+	h6 := func(req, resp dhcpv6.DHCPv6) (dhcpv6.DHCPv6, bool) { return handle6(&DHCPv6Records, req, resp) }
+	h4 := func(req, resp *dhcpv4.DHCPv4) (*dhcpv4.DHCPv4, bool) { return handle4(&DHCPv4Records, req, resp) }
+	return h6, h4, nil
 }
 
 func loadFromFile(v6 bool, filename string) error {
@@ -276,6 +291,12 @@ func loadFromFile(v6 bool, filename string) error {
 	recLock.Lock()
 	defer recLock.Unlock()
 
+	if v6 {
+		DHCPv6Records = records
+	} else {
+		DHCPv4Records = records
+	}
+	// StaticRecords is the table loaded last; the exported Handler4/Handler6 use it
 	StaticRecords = records
 
 	return nil
